@@ -124,3 +124,12 @@ CHECKS["C09"] = dict(
     level_text="Differential random testing: every case is its own control. One defect (hooks before the peer filter) found and fixed.",
     level_note="Trusts the honest run as the reference; both runs use the same deterministic delivery order.",
     technique="rapid differential testing with an injected third peer", design_ref="DESIGN.md §4 C09")
+
+CHECKS["C10"] = dict(
+    pkg="props/c10", level="exploration", gomaxprocs=1,
+    rule="one real responder holding a generated DAG serves scripted peer A (1-2 New requests; the first is held in progress by an outgoing-block-hook pause at block 1-4, by a storage-read gate that keeps it Running, or not at all, and later released by A's update / by opening the gate) while scripted peer B sends 1-3 messages carrying A's request ids: cancel, update (extension that would unpause, that would make the update hook terminate, or inert) or new (different root, matcher selector), placed while the response is held, after release, or after completion. Run twice: without and with B. Oracle (differential, batching boundaries normalised away): per request the concatenated metadata, the set of blocks sent to A and the sequence of non-partial statuses are identical; completed / requestor-cancelled / network-error listener events for A are identical; PeerState(A) at the end is identical. Non-trivial: an intrusion arrives while the targeted response is still listed in PeerState(A).",
+    assumptions=_SIM_ASSUME,
+    quick=dict(shards=2, timeout=400), thorough=dict(shards=16, timeout=3000),
+    level_text="Differential random testing with the victim's response pinned in each live state (paused, running, queued/completing). One defect (no sender check) found and fixed.",
+    level_note="Trusts the run without the intruder as reference.",
+    technique="rapid differential testing with an injected second peer", design_ref="DESIGN.md §4 C10")
